@@ -1,8 +1,8 @@
 (* Tie_Source: what lib/srcgen.py regenerated from /repo's sources on this run (GEN.Gen_Source) is the FIPS 180-4 /
    RFC 4648 object the models, specs and theorems of HV are about.  Hand-written and fixed; only Gen_Source.v changes.
    Every theorem is for ALL words / arrays (no bound): the generated definitions are open terms in x, w, wv, j. *)
-From HV Require Import Base_Bytes Spec_SHA Spec_Base64 Spec_Base32 Spec_Base36 Model_Sha1Transform Model_Sha2Ctx.
-From Coq Require Import Lia Arith.
+From HV Require Import Base_Bytes Spec_SHA Spec_Base64 Spec_Base32 Spec_Base36 Model_Sha1Transform Model_Sha2Ctx Base_Result Model_Otp.
+From Coq Require Import Lia Arith ZArith.
 From GEN Require Import Gen_Source.
 From Coq Require Import List NArith.
 Import ListNotations.
@@ -125,6 +125,43 @@ Qed.
 Theorem tie_len_b : forall t m, F256.src_len_b 64 t m = ((t + m) * 8) mod 2 ^ 64 /\ F512.src_len_b 64 t m = ((t + m) * 8) mod 2 ^ 64.
 Proof. intros; split; apply len_b_arith. Qed.
 
+(* ---- detail::hotp_from_digest (src/hmac_utils.cpp): table, offset, truncated word and final reduction against Model_Otp ---- *)
+Theorem tie_hotp_table : OTP.src_divisor = divisor_table.                       Proof. reflexivity. Qed.
+Theorem tie_hotp_offset : forall b, OTP.src_offset 32 b = N.land b 0x0F.         Proof. intros; reflexivity. Qed.
+Theorem tie_hotp_return : forall bin d, (1 <= d <= 9)%Z ->
+  OTP.src_return 32 bin (Z.to_N d) = bin mod nth (Z.to_nat (d - 1)) divisor_table 0.
+Proof.
+  intros bin d H.
+  assert (E : (d = 1 \/ d = 2 \/ d = 3 \/ d = 4 \/ d = 5 \/ d = 6 \/ d = 7 \/ d = 8 \/ d = 9)%Z) by lia.
+  repeat (destruct E as [E|E]; [subst d; reflexivity|]). subst d; reflexivity.
+Qed.
+Lemma shl_masked (x j k : N) : j + k <= 32 ->
+  N.land (N.shiftl (N.land x (N.ones j)) k) (wmask 32) = N.shiftl (N.land x (N.ones j)) k.
+Proof.
+  intro H. change (wmask 32) with (N.ones 32). rewrite (N.land_ones _ 32). apply N.mod_small.
+  rewrite N.land_ones, N.shiftl_mul_pow2.
+  assert (Hm : x mod 2 ^ j < 2 ^ j) by (apply N.mod_lt; apply N.pow_nonzero; discriminate).
+  apply N.lt_le_trans with (2 ^ j * 2 ^ k).
+  - apply N.mul_lt_mono_pos_r; [|exact Hm]. apply N.neq_0_lt_0. apply N.pow_nonzero; discriminate.
+  - rewrite <- N.pow_add_r. apply N.pow_le_mono_r; [discriminate|exact H].
+Qed.
+Lemma wadd_small (o c : N) : o < 16 -> c < 16 -> wadd 32 o c = o + c.
+Proof. intros Ho Hc. unfold wadd. apply N.mod_small. change (2 ^ 32) with 4294967296. lia. Qed.
+(* the dynamic-truncation word: the four masked bytes at offset..offset+3, shifted and or-ed, WITHOUT any 32-bit truncation taking effect *)
+Theorem tie_hotp_bin : forall hr o, o < 16 ->
+  OTP.src_bin_code 32 hr o =
+    N.lor (N.lor (N.lor (N.shiftl (N.land (nth (N.to_nat o) hr 0) 0x7F) 24) (N.shiftl (N.land (nth (N.to_nat o + 1) hr 0) 0xFF) 16))
+                 (N.shiftl (N.land (nth (N.to_nat o + 2) hr 0) 0xFF) 8)) (N.land (nth (N.to_nat o + 3) hr 0) 0xFF).
+Proof.
+  intros hr o Ho. unfold OTP.src_bin_code.
+  rewrite (wadd_small o 1 Ho eq_refl), (wadd_small o 2 Ho eq_refl), (wadd_small o 3 Ho eq_refl).
+  rewrite !N2Nat.inj_add.
+  change (N.to_nat 1) with 1%nat; change (N.to_nat 2) with 2%nat; change (N.to_nat 3) with 3%nat.
+  change 0x7f with (N.ones 7); change 0xff with (N.ones 8).
+  rewrite (shl_masked _ 7 24), (shl_masked _ 8 16), (shl_masked _ 8 8) by (intro E; discriminate E).
+  reflexivity.
+Qed.
+
 (* ---- codec alphabets (RFC 4648 tables 1, 2, 3; Base36 digits) ---- *)
 Theorem tie_b64 : src_b64_std = b64_spec_alphabet false /\ src_b64_url = b64_spec_alphabet true.
 Proof. split; reflexivity. Qed.
@@ -136,4 +173,5 @@ Print Assumptions tie_rounds. Print Assumptions tie_IV1. Print Assumptions tie_K
 Print Assumptions tie_256_funcs. Print Assumptions tie_512_funcs. Print Assumptions tie_256_sched. Print Assumptions tie_512_sched.
 Print Assumptions tie_256_round. Print Assumptions tie_512_round. Print Assumptions tie_sha1_rol. Print Assumptions tie_sha1_rounds. Print Assumptions tie_sha1_blk.
 Print Assumptions tie_finish_params. Print Assumptions tie_256_block_nb. Print Assumptions tie_512_block_nb. Print Assumptions tie_pm_len. Print Assumptions tie_len_b.
+Print Assumptions tie_hotp_table. Print Assumptions tie_hotp_offset. Print Assumptions tie_hotp_return. Print Assumptions tie_hotp_bin.
 Print Assumptions tie_b64. Print Assumptions tie_b32. Print Assumptions tie_b36.
